@@ -321,6 +321,8 @@ func main() {
 		runC14(w, rng, *flagN)
 	case "c14rt":
 		runC14rt(w, rng, *flagN)
+	case "c13":
+		runC13(w, rng, *flagN)
 	default:
 		fmt.Fprintln(os.Stderr, "unknown mode")
 		os.Exit(2)
